@@ -2,6 +2,7 @@ import GitBugModel.Model.Dag
 import GitBugModel.Lemmas.PackSort
 import GitBugModel.Gen.Dag
 import GitBugModel.Lemmas.Reach
+import GitBugModel.Lemmas.ReadableMerge
 /-!
 # C02 — a pull never loses operations nor breaks an entity
 
@@ -289,6 +290,124 @@ theorem merge_commit_dominates_remote (h : Dag.read s rh = .ok re) (hv : entityV
   intro p hp
   have := maxOf_ge (re.packs.map (·.edit)) p.edit (List.mem_map.mpr ⟨p, hp, rfl⟩)
   omega
+
+/-! ## a pull never breaks an entity: the merged head is readable -/
+
+/-- every commit a successful read reached has its pack among the packs of the entity -/
+theorem read_packs_complete {s : Store} {h : String} {e : Entity} (hr : Dag.read s h = .ok e)
+    {x : String} {c : Commit} {p : Pack} (hx : Reach s h x) (hl : lookup s x = some c) (hp : c.pack = .ok p) :
+    p ∈ e.packs := by
+  obtain ⟨order, m, hb, wf, hpacks, _, _⟩ := GitBugModel.Props.C03.read_wellformed hr
+  obtain ⟨spec1, spec2⟩ := bfs_spec hb
+  obtain ⟨c', hc', hh⟩ := spec2 x hx
+  have hcl := (spec1 c' hc').1
+  rw [hh, hl] at hcl
+  injection hcl with hcl
+  subst hcl
+  obtain ⟨p', hp', _⟩ := wf.edges c hc'
+  obtain ⟨y, hy, hy1, hy2⟩ := packOf_mem hp'
+  obtain ⟨c2, hc2, h1, h2⟩ := wf.packs y hy
+  have : c2 = c := by
+    have a := (spec1 c2 hc2).1
+    have b := (spec1 c hc').1
+    rw [← h1, hy1, b] at a
+    injection a with a
+    exact a.symm
+  subst this
+  rw [hp] at h2
+  injection h2 with h2
+  rw [hpacks]
+  exact List.mem_map.mpr ⟨y, hy, h2.symm⟩
+
+/-- `read_iff_readable` (re-stated here; proved in `Lemmas/Readable.lean`): `Dag.read` accepts the
+history below a head exactly when it is `Readable` — a statement on the store alone: every reachable
+commit stored and decoding to a valid pack, merge commits empty, edit times strictly increasing
+along every edge with the hop limit on non-merge commits, one root with a creation time, some
+operation.  Both directions, any store. -/
+theorem read_iff_readable (s : Store) (h : String) : (∃ e, Dag.read s h = .ok e) ↔ Readable s h :=
+  GitBugModel.Dag.read_iff_readable s h
+
+/-- `merge_readable` (scenario 5): when the local and the remote history are both readable and
+share a commit, the merge commit `mergeDiverged` writes (a hash not yet in the store) is readable:
+the status is `updated`, never `error`.  For every store, every shape and length of the two
+histories.  `hce`: the remote side's edit times were witnessed into the clock (what `merge` does
+before). -/
+theorem merge_readable {s : Store} {l rh : String} {ce cc : Nat} {nh mp au : String} {le re : Entity}
+    (hl : Dag.read s l = .ok le) (hr : Dag.read s rh = .ok re) (hfresh : lookup s nh = none)
+    (hshare : ∃ z, Reach s l z ∧ Reach s rh z) (hce : maxOf (re.packs.map (·.edit)) ≤ ce) :
+    (mergeDiverged s l rh ce cc nh mp au).status = .updated ∧
+    ∃ me, Dag.read (s ++ [mkMergeCommit nh l rh mp au (max ce (maxOf (le.packs.map (·.edit))) + 1)]) nh = .ok me := by
+  have Rl := read_readable hl
+  have Rr := read_readable hr
+  have R := readable_merge (mp := mp) (au := au) (e := max ce (maxOf (le.packs.map (·.edit))) + 1) Rl Rr hfresh hshare (by
+    intro x c p hx hlx hp
+    rcases hx with hx | hx
+    · have := maxOf_ge (le.packs.map (·.edit)) p.edit (List.mem_map.mpr ⟨p, read_packs_complete hl hx hlx hp, rfl⟩)
+      omega
+    · have := maxOf_ge (re.packs.map (·.edit)) p.edit (List.mem_map.mpr ⟨p, read_packs_complete hr hx hlx hp, rfl⟩)
+      omega)
+  obtain ⟨me, hme⟩ := readable_read R
+  refine ⟨?_, me, hme⟩
+  unfold mergeDiverged
+  simp only [hl, hme]
+
+/-- `pull_keeps_readable`: whatever `merge` decides for an entity that is readable locally, the
+head the local ref is left at is readable in the store as the merge leaves it (the old store, or
+the old store plus the merge commit) — a pull never breaks an entity.  Unbounded. -/
+theorem pull_keeps_readable {s : Store} {rid l rh : String} {ce cc : Nat} {nh mp au : String} {le : Entity}
+    (hl : Dag.read s l = .ok le) (hfresh : lookup s nh = none) :
+    let out := merge s rid (some l) rh ce cc nh mp au
+    ∃ h e, out.localHead = some h ∧
+      Dag.read (match out.mergeCommit with
+                | some (_, t) => s ++ [mkMergeCommit nh l rh mp au t]
+                | none => s) h = .ok e := by
+  intro out
+  show ∃ h e, (merge s rid (some l) rh ce cc nh mp au).localHead = some h ∧
+      Dag.read (match (merge s rid (some l) rh ce cc nh mp au).mergeCommit with
+                | some (_, t) => s ++ [mkMergeCommit nh l rh mp au t]
+                | none => s) h = .ok e
+  unfold merge
+  cases hr : Dag.read s rh with
+  | error er => exact ⟨l, le, by simp, by simpa using hl⟩
+  | ok re =>
+    simp only
+    by_cases hv : entityValid re.ops = true
+    · by_cases hid : re.ops.head?.map (·.id) = some rid
+      · simp only [hv, hid, Bool.not_true, Bool.false_eq_true, ↓reduceIte, bne_self_eq_false]
+        unfold mergeExisting
+        by_cases h1 : (l == rh) = true
+        · simp only [h1, ↓reduceIte]
+          exact ⟨l, le, rfl, hl⟩
+        · simp only [h1, Bool.false_eq_true, ↓reduceIte]
+          by_cases h2 : (reach s l).contains rh = true
+          · simp only [h2, ↓reduceIte]
+            exact ⟨l, le, rfl, hl⟩
+          · simp only [h2, Bool.false_eq_true, ↓reduceIte]
+            by_cases h3 : (reach s rh).contains l = true
+            · simp only [h3, ↓reduceIte]
+              exact ⟨rh, re, rfl, hr⟩
+            · simp only [h3, Bool.false_eq_true, ↓reduceIte]
+              by_cases h4 : (!(reach s l).any fun h => (reach s rh).contains h) = true
+              · simp only [h4, ↓reduceIte]
+                exact ⟨l, le, rfl, hl⟩
+              · simp only [h4, Bool.false_eq_true, ↓reduceIte]
+                -- scenario 5
+                have hshare : ∃ z, Reach s l z ∧ Reach s rh z := by
+                  have hex : ∃ z, z ∈ reach s l ∧ z ∈ reach s rh := by simpa using h4
+                  obtain ⟨z, hz1, hz2⟩ := hex
+                  obtain ⟨o1, m1, hb1, _⟩ := GitBugModel.Props.C03.read_wellformed hl
+                  obtain ⟨o2, m2, hb2, _⟩ := GitBugModel.Props.C03.read_wellformed hr
+                  exact ⟨z, (mem_reach_iff hb1 z).mp hz1, (mem_reach_iff hb2 z).mp hz2⟩
+                obtain ⟨hst, me, hme⟩ := merge_readable (ce := max ce (maxOf (re.packs.map (·.edit))))
+                  (cc := max cc (maxOf (re.packs.map (·.create)))) (mp := mp) (au := au) hl hr hfresh hshare (Nat.le_max_right _ _)
+                refine ⟨nh, me, ?_, ?_⟩
+                · unfold mergeDiverged; simp only [hl, hme]
+                · unfold mergeDiverged; simp only [hl, hme]
+      · simp only [hv, hid, Bool.not_true, Bool.false_eq_true, ↓reduceIte, bne_iff_ne, ne_eq, not_false_eq_true]
+        exact ⟨l, le, by simp [hid], by simpa [hid] using hl⟩
+    · have hv' : entityValid re.ops = false := by simpa using hv
+      simp only [hv', Bool.not_false, ↓reduceIte]
+      exact ⟨l, le, rfl, hl⟩
 
 /-- the local ref only ever becomes: itself, the remote head, or the merge commit -/
 theorem merge_frame :
